@@ -204,6 +204,9 @@ val term_f : nat -> str -> str
 
 val splice : str -> nat -> nat -> str -> str
 
+val rewrite_step :
+  str list -> str option -> (((nat * nat) * str) * str) -> str option
+
 val rewrite : str list -> str -> str option
 
 val stream : str list -> seg list -> str -> str option
